@@ -12,21 +12,22 @@ import numpy as np
 class Violation(AssertionError):
     """The oracle of a property rejected what the code under test did."""
 
-    def __init__(self, tag, msg=""):
+    def __init__(self, tag, msg="", data=None):
         super().__init__(f"[{tag}] {msg}")
         self.tag = tag
         self.msg = msg
+        self.data = data or {}
 
 
 class CaseTimeout(BaseException):
     """Raised by the watchdog inside a call into the code under test."""
 
 
-def check(cond, tag, msg=""):
+def check(cond, tag, msg="", data=None):
     if not cond:
         if callable(msg):
             msg = msg()
-        raise Violation(tag, msg)
+        raise Violation(tag, msg, data)
 
 
 def lib(fn, *a, **k):
